@@ -69,6 +69,8 @@ Family(name) ==
     [] name = "c09four"  -> C09Four(0)
     [] name = "c09never" -> C09FourNever(0)
     [] name = "mixed"    -> MixedSmall(0)
+    [] name = "c09quick" -> C09Small(0) \cup C09Four(0) \cup MixedSmall(0)
+    [] name = "c09thorough" -> C09Small(0) \cup C09FourNever(0) \cup MixedSmall(0)
 EnvScenarios == LET nsh == NatOf(IOEnv.VT_NSHARDS)
                     sh  == NatOf(IOEnv.VT_SHARD)
                 IN {s \in Family(IOEnv.VT_FAMILY) : ScCode(s) % nsh = sh}
